@@ -17,6 +17,7 @@ EXPLANATION = (
     "wrapper is written and read as the same class and re-raises its payload."
     'Also decided: the default error hook cannot raise (format fields that index their argument are modelled); every serialised exception object carries the traceback text and the error reply is sent on every path; definite assignment in the reporting modules. '
     "Also decided (round 7): The property gates call fget/fset directly, so the accessor's own exception is what leaves the gate. "
+    'Also decided (round 8): A `with contextlib.suppress(X)` around user code counts as a handler that swallows X. '
     "Not decided: equality of args/attributes after "
     "the trip (third-party codecs), all classes x argument shapes."
 )
@@ -341,6 +342,18 @@ def run(ctx, R, tier):
                                   any(unparse(a) == hnd.name for a in x.args) for st in hnd.body for x in walk_no_nested(st))
                     if not (reraises or wraps or replies):
                         bad = hnd
+            # `with contextlib.suppress(X):` around the call is a handler for X that does nothing
+            from ..engine.cfg import suppress_info
+            from ..engine.context import enclosing_withs
+            for w in enclosing_withs(c):
+                if not any(w is x for x in ast.walk(g.node)):
+                    continue
+                for it in w.items:
+                    tys = suppress_info(it)
+                    if tys:
+                        classes = [es.class_of_expr(x, g) for x in tys]
+                        if any(cl and (es.is_sub(cl, "builtins.Exception") or es.is_sub("builtins.Exception", cl)) for cl in classes):
+                            bad = w
             R.check(bad is None, "C07-R6", "%s|user-exception-propagates:%s#%d" % (g.name, unparse(c.func, 30), sites.index(c)), "an exception raised by user code leaves this call site unchanged (re-raised or wrapped as is)",
                     g.loc(c), "the handler at %s swallows or replaces exceptions of the user's code called by `%s`: the caller receives a different exception (or none)" % (
                         g.loc(bad) if bad is not None else "", unparse(c, 50)))
